@@ -475,6 +475,7 @@ pub fn run(a: &Args, rep: &mut Report) {
     let pool = mk_pool(&mut rng, pkt.addr());
     let has_cl = cfg!(feature = "std");
     let mut histories: Vec<(Kind, Vec<Op>)> = Vec::new();
+    let mut long_histories = 0u64;
     for _ in 0..n {
         let kind = crate::engines::KINDS[rng.below(4) as usize];
         let len = rng.range(1, 40) as usize;
@@ -497,8 +498,68 @@ pub fn run(a: &Args, rep: &mut Report) {
                 _ => Op::Exec,
             });
         }
+        // accumulation: one history in 300 goes on with bursts of hundreds of identical calls (loads,
+        // executions, registrations, compilations, refused loads) followed by the observations that
+        // would show a counter, generation stamp or table that wrapped, saturated or filled up
+        if !cfg!(miri) && rng.chance(1, 300) {
+            let pick_n = |rng: &mut Rng| -> usize {
+                if !q && rng.chance(1, 10) { *rng.pick(&[65_535usize, 65_536, 65_537]) } else { *rng.pick(&[254usize, 255, 256, 257, 258, 300, 510, 511, 512, 513, 1024, 1025, 1100]) }
+            };
+            for _ in 0..rng.range(1, 4) {
+                let n = pick_n(&mut rng);
+                match rng.below(6) {
+                    0 => {
+                        ops.push(if rng.chance(1, 2) { Op::JitCompile } else if has_cl { Op::ClCompile } else { Op::JitCompile });
+                        let ps: Vec<usize> = (0..3).map(|_| *rng.pick(&progs_for_kind)).collect();
+                        for k in 0..n {
+                            ops.push(Op::SetProgram(ps[k % ps.len()]));
+                        }
+                    }
+                    1 => {
+                        for _ in 0..n.min(1100) {
+                            ops.push(Op::Exec);
+                        }
+                        ops.push(Op::SetProgram(*rng.pick(&progs_for_kind)));
+                    }
+                    2 => {
+                        for k in 0..n.min(1100) {
+                            ops.push(if k % 3 == 2 { Op::SetCalc } else { Op::RegisterHelper(rng.below(8) as usize) });
+                        }
+                        ops.push(Op::JitCompile);
+                    }
+                    3 => {
+                        for _ in 0..n.min(600) {
+                            ops.push(Op::JitCompile);
+                        }
+                    }
+                    4 => {
+                        ops.push(Op::SetVerifier(Ver::Default));
+                        for _ in 0..n.min(1100) {
+                            ops.push(Op::SetProgram(*rng.pick(&progs_for_kind)));
+                            ops.push(Op::ExecJit);
+                        }
+                    }
+                    _ => {
+                        for _ in 0..n.min(1100) {
+                            ops.push(Op::ExecJit);
+                        }
+                        ops.push(Op::SetProgram(*rng.pick(&progs_for_kind)));
+                    }
+                }
+                ops.push(Op::ExecJit);
+                if has_cl {
+                    ops.push(Op::ExecCl);
+                }
+                ops.push(Op::Exec);
+                ops.push(Op::JitCompile);
+                ops.push(Op::ExecJit);
+                ops.push(Op::Exec);
+            }
+            long_histories += 1;
+        }
         histories.push((kind, ops));
     }
+    rep.add("long_histories_with_bursts_of_hundreds_of_calls", long_histories);
     let pk = (pkt.addr() as *mut u8, pkt.len());
     let mbuff = GuardBuf::new(32, true, false);
     let ends = sys::run_batch(histories.len(), 120, 60, |i, out| {
